@@ -356,6 +356,7 @@ pub fn run(prop: &dyn Prop, args: &RunArgs) -> i32 {
             // capacity again, so growth paths are crossed thousands of times per run, with different pasts,
             // instead of three times per process.
             let case_seed = cx.rng.0;
+            CASE_SEED.store(case_seed, Ordering::Relaxed);
             let fresh_thread = args.tier != Tier::Miri && st.name != "corpus" && mix(case_seed, 0x7431) % 4 == 0;
             let res = if fresh_thread {
                 let cxr = &mut cx;
@@ -407,6 +408,7 @@ pub fn run(prop: &dyn Prop, args: &RunArgs) -> i32 {
     }
     // hook counters (only present in hook builds)
     cx.counters.insert("cases run on a fresh thread".to_string(), fresh_cases);
+    cx.counters.insert("searches whose query was written into the buffer kept from the search before".to_string(), QUERY_BUFFER_REUSES.load(Ordering::Relaxed));
     #[cfg(lucid_suggest_verif)]
     {
         let mut snap = hook_snapshot();
